@@ -6,7 +6,7 @@ each with the properties whose behaviour depends on it.  A property's check eval
 closures inlined), so renaming or reformatting is silent and a changed computation is reported with both forms.
 Debug/Display of errors, help texts and pure constructors of host-side configuration are deliberately not pinned.
 """
-from lib import nf
+from lib import nf, subst
 
 L = "λ"
 CUSTOM = "*const dyn sim::device::ExternalDevice + std::marker::Send + std::marker::Sync"
@@ -119,7 +119,7 @@ PINS = [
     ("<std::sync::Arc<std::sync::Mutex<D>> as sim::device::ExternalDevice>::io_write", _lockdev("Mutex::try_lock", "", "io_write"), "same for Mutex", "src/sim/device.rs", {"C32", "C33"}),
     ("<std::sync::Arc<std::sync::Mutex<D>> as sim::device::ExternalDevice>::poll_interrupt", _lockdev("Mutex::try_lock", "", "poll"), "same for Mutex", "src/sim/device.rs", {"C10"}),
     ("sim::device::keyboard::<impl sim::device::ExternalDevice for sim::device::DevWrapper<K, (dyn sim::device::keyboard::KeyboardDevice + 'static)>>::io_write", "[arg2 in [0,65535]] => 0 ; [arg2 in [65024,65024]] => 1",
-     "the keyboard accepts writes to KBSR only", "src/sim/device/keyboard.rs", {"C32", "C10", "C33"}),
+     "the keyboard accepts writes to KBSR only", "src/sim/device/keyboard.rs", {"C32", "C10", "C33", "C08"}),
     ("sim::device::keyboard::<impl sim::device::ExternalDevice for sim::device::DevWrapper<K, (dyn sim::device::keyboard::KeyboardDevice + 'static)>>::poll_interrupt", "[local in [0,0]] => Option::None() ; [local in [1,1]] => Option::Some(Interrupt::vectored(128, 4))",
      "the keyboard interrupt is vector x80 at priority 4", "src/sim/device/keyboard.rs", {"C10"}),
     ("<sim::device::keyboard::BufferedKeyboard as sim::device::keyboard::KeyboardDevice>::interrupts_enabled", "arg1.interrupts_enabled", "the interrupt-enable bit is the stored flag", "src/sim/device/keyboard.rs", {"C10", "C33"}),
@@ -156,7 +156,15 @@ def check(ck, F, pid):
         short = path
         if len(short) > 70:
             short = short[:34] + ".." + short[-34:]
-        nf.expect_deep(ck, F, pid + ".P", "pin:" + short, path, [want], what, file=file, norm=nf.anon_locals)
+        ok = nf.expect_deep(ck, F, pid + ".P", "pin:" + short, path, [want], what, file=file, norm=nf.anon_locals)
+        # the return-value form above does not show effects; the loss-free effect skeleton (calls, stores, conditions) does
+        if ok:
+            eu = subst.effects_unchanged(F, path)
+            if eu is False:
+                b = F.bodies.get(path)
+                ck.ob(pid + ".P", "pin-effects:" + short, False,
+                      "%s; the calls/stores/conditions of this function differ from the pinned commit's and the new form is not a listed equivalent spelling: %s" % (what, nf.full_form(F, path)[:600]),
+                      "%s:%s" % (file, b.line if b else "?"))
     return n
 
 
